@@ -485,6 +485,18 @@ func elemArgs(thorough bool) []ref.Bits {
 			}
 		}
 	}
+	// (vii) word-structured coefficients (a whole 64-bit word of the coefficient zero, all ones, or at a decimal
+	// limit): the multi-word helpers test and carry word by word
+	for _, K := range WordShapes() {
+		L := len(K.String())
+		for _, sh := range []int{-L - 60, -L - 40, -L - 28, -L - 25, -L - 10, -L - 3, -L - 1, -L, -L + 1, -L + 3, 0, 40} {
+			if !thorough && (sh == -L-60 || sh == -L-25 || sh == -L+3) {
+				continue
+			}
+			add(false, K, sh)
+			add(true, K, sh)
+		}
+	}
 	return out
 }
 
